@@ -975,6 +975,9 @@ LAW(L5_simple_constant, RC, 5000, 200000, 170, "at least two classes and (an upd
             size_t vi = static_cast<size_t>(stoi(nm.substr(1))) - 1;
             switch (c.weighted({3, 2, 2})) { case 0: x = V[vi] + c.pick({0.25, -0.25, 1.0, -1.0, 5.0, -5.0}); break; case 1: x = genValue(); break; default: x = V[vi] + c.real(-2, 2); }
             nV[vi] = x;
+            // a value constructed with a range [min;max] (documented constructor argument) never leaves it, whatever happened since
+            auto rg = ranges.find(vi + 1);
+            if (rg != ranges.end() && (x < rg->second[0] || x > rg->second[1])) { anyRejected = true; c.label("value_outside_its_given_range"); }
           }
           c.desc << (i ? "," : "") << nm << "=" << vf::dec(x);
           if (!constraintAccepts(d->parameter(nm), x)) anyRejected = true;
@@ -986,7 +989,7 @@ LAW(L5_simple_constant, RC, 5000, 200000, 170, "at least two classes and (an upd
         Obs before = observeD(*d);
         try {
           if (single) d->setParameterValue(names[0], pl[0].getValue()); else d->matchParametersValues(pl);
-          CHECK(!anyRejected, w.str() << ": the update was accepted although a value is rejected by the constraint of its parameter");
+          CHECK(!anyRejected, w.str() << ": the update was accepted although a value is rejected by the constraint of its parameter (or lies outside the range given for it at construction)");
           V = nV; theta = nT; cval = ncv; touched = true;
         } catch (ConstraintException&) {
           CHECK(anyRejected, w.str() << ": ConstraintException although every value is accepted by the constraint of its parameter");
@@ -1245,7 +1248,13 @@ LAW(L7_mixture, RC, 3000, 150000, 220, "always (compound family): 2-3 components
         if (!(massOf(r.x1, r.x2) >= 0.02)) { c.desc << "; nop"; break; }
         c.desc << "; restrictToConstraint(" << showRestr(r) << ")"; w << "restrictToConstraint" << showRestr(r);
         for (size_t i = 0; i < nc; ++i) guardKnown(c, comps[i], std::max(r.x1, nestedOf(i).getLowerBound()), std::min(r.x2, nestedOf(i).getUpperBound()));
+        // a restriction of the mixture restricts EVERY component: each domain becomes its intersection with the interval
+        // (the hull check of check() takes the components' domains as they are, so it cannot see a component left out)
+        vector<pair<double, double>> wantDom;
+        for (size_t i = 0; i < nc; ++i) wantDom.push_back({std::max(r.x1, nestedOf(i).getLowerBound()), std::min(r.x2, nestedOf(i).getUpperBound())});
         d->restrictToConstraint(IntervalConstraint(r.x1, r.x2, r.in1, r.in2));
+        for (size_t i = 0; i < nc; ++i)
+          CHECK(vf::sameBits(nestedOf(i).getLowerBound(), wantDom[i].first) && vf::sameBits(nestedOf(i).getUpperBound(), wantDom[i].second), w.str() << ": the domain of component " << i + 1 << " is [" << vf::dec(nestedOf(i).getLowerBound()) << ";" << vf::dec(nestedOf(i).getUpperBound()) << "], expected its intersection with the interval, [" << vf::dec(wantDom[i].first) << ";" << vf::dec(wantDom[i].second) << "]");
         break; }
       case 4: c.desc << "; discretize()"; w << "discretize()"; d->discretize(); break;
       case 5: {
